@@ -413,3 +413,51 @@ def expand_accessor(index, cls, call: ast.AST) -> ast.AST:
             return n
 
     return ast.fix_missing_locations(ast.copy_location(R().visit(copy.deepcopy(last.value)), call))
+
+
+def merge_order(func: ast.AST, name: str) -> list[ast.AST] | None:
+    """The mappings merged into the local ``name``, lowest precedence first (the last one wins on a common key).
+
+    Understands ``a | b``, ``{**a, **b}``, ``dict(a)`` / ``a.copy()`` followed by ``name.update(b)`` and
+    ``name |= b``, and ``dict(a, **b)``; locals that are themselves plain mappings are looked through.  None when the
+    construction is not one of these.
+    """
+    plain = {s_.targets[0].id: s_.value for s_ in stmts_of(func) if isinstance(s_, ast.Assign) and len(s_.targets) == 1 and isinstance(s_.targets[0], ast.Name)}
+    counts: dict[str, int] = {}
+    for s_ in stmts_of(func):
+        if isinstance(s_, ast.Assign):
+            for t in s_.targets:
+                if isinstance(t, ast.Name):
+                    counts[t.id] = counts.get(t.id, 0) + 1
+
+    def parts(e: ast.AST) -> list[ast.AST]:
+        if isinstance(e, ast.BinOp) and isinstance(e.op, ast.BitOr):
+            return parts(e.left) + parts(e.right)
+        if isinstance(e, ast.Dict) and e.keys and all(k is None for k in e.keys):
+            out = []
+            for v in e.values:
+                out += parts(v)
+            return out
+        if isinstance(e, ast.Call) and dotted(e.func) == "dict" and len(e.args) == 1:
+            out = parts(e.args[0])
+            for k in e.keywords:
+                if k.arg is None:
+                    out += parts(k.value)
+            return out
+        if isinstance(e, ast.Call) and isinstance(e.func, ast.Attribute) and e.func.attr == "copy" and not e.args:
+            return parts(e.func.value)
+        if isinstance(e, ast.Name) and counts.get(e.id) == 1 and e.id != name and isinstance(plain.get(e.id), (ast.Dict, ast.DictComp, ast.BinOp, ast.Call)):
+            return parts(plain[e.id])
+        return [e]
+
+    if counts.get(name) != 1:
+        return None
+    out = parts(plain[name])
+    start = next(s_ for s_ in stmts_of(func) if isinstance(s_, ast.Assign) and any(isinstance(t, ast.Name) and t.id == name for t in s_.targets))
+    later = sorted((s_ for s_ in stmts_of(func) if getattr(s_, "lineno", 0) > getattr(start, "lineno", 0)), key=lambda s_: (s_.lineno, s_.col_offset))
+    for s_ in later:
+        if isinstance(s_, ast.Expr) and isinstance(s_.value, ast.Call) and isinstance(s_.value.func, ast.Attribute) and s_.value.func.attr == "update" and dotted(s_.value.func.value) == name and len(s_.value.args) == 1:
+            out += parts(s_.value.args[0])
+        elif isinstance(s_, ast.AugAssign) and isinstance(s_.op, ast.BitOr) and dotted(s_.target) == name:
+            out += parts(s_.value)
+    return out
